@@ -425,13 +425,123 @@ def part_random(payload):
     return part
 
 
+
+# ------------------------------------------------------------------ code unit systems of registries with identical contents
+def part_code_systems(payload):
+    """yt-style code unit systems: UnitSystem(reg.unit_system_id, ..., registry=reg) and in_base("code").  The id is a hash of the
+    registry's *contents*, so a registry and its fork (deepcopy / pickle / JSON / lut copy) share one key in the global unit-system
+    table and the system registered last is the one both find.  Whatever that table holds, a conversion asked for through
+    registry A is answered with A's own definitions and stays in A; edits through B never change it."""
+    import json
+
+    import unyt.dimensions as D
+    from unyt import Unit, UnitSystem, unyt_array, unyt_quantity
+    from unyt.unit_registry import UnitRegistry
+
+    known = core.Known("C13")
+    part = core.Part()
+
+    def fork(reg, how):
+        if how == "deepcopy":
+            return copy.deepcopy(reg)
+        if how == "pickle":
+            return pickle.loads(pickle.dumps(unyt_array([1.0], "code_length*code_mass/code_time", registry=reg))).units.registry
+        if how == "json":
+            return UnitRegistry.from_json(reg.to_json())
+        if how == "lut":
+            return UnitRegistry(lut=dict(reg.lut), add_default_symbols=False)
+        if how == "rebuilt":
+            r = UnitRegistry()
+            for k_ in ("code_length", "code_mass", "code_time"):
+                r.add(k_, float(reg.lut[k_][0]), reg.lut[k_][1])
+            return r
+        raise ValueError(how)
+
+    def observe(reg, usys_obj):
+        out = {}
+        q = unyt_quantity(6.0, "m", registry=reg)
+        a = unyt_array([2.0, 4.0], "kg*m/s", registry=reg)
+        u = Unit("m/s", registry=reg)
+        for nm, f in (("q.in_base(code)", lambda: q.in_base("code")), ("a.in_base(code)", lambda: a.in_base("code")), ("u.get_base_equivalent(code)", lambda: u.get_base_equivalent("code")),
+                      ("q.in_base(system object)", lambda: q.in_base(usys_obj)), ("convert_to_base(code)", lambda: (lambda z: (z.convert_to_base("code"), z)[1])(a.copy())),
+                      ("u.get_base_equivalent(system object)", lambda: u.get_base_equivalent(usys_obj))):
+            try:
+                r = f()
+            except Exception as e:
+                out[nm] = ("raises", type(e).__name__)
+                continue
+            un = r if isinstance(r, Unit) else r.units
+            home = un.registry is reg or getattr(un.registry, "lut", None) is reg.lut
+            vals = None if isinstance(r, Unit) else [float(v) for v in np.atleast_1d(np.asarray(r))]
+            out[nm] = (vals, str(un), float(un.base_value), R.dimvec_of(un.dimensions), "in own registry" if home else "IN ANOTHER REGISTRY")
+        return out
+
+    nscen = 0
+    for how in ("deepcopy", "pickle", "json", "lut", "rebuilt"):
+        for order in ("source-first", "fork-first"):
+            for edit in ("modify", "remove+add", "add-unrelated", "modify-mass"):
+                for through in ("fork", "source"):
+                    nscen += 1
+                    reg1 = UnitRegistry()
+                    reg1.add("code_length", 2.0, D.length)
+                    reg1.add("code_mass", 3.0, D.mass)
+                    reg1.add("code_time", 4.0, D.time)
+                    try:
+                        reg2 = fork(reg1, how)
+                    except Exception as e:
+                        part.count(f"fork route {how} unavailable ({type(e).__name__})")
+                        continue
+                    same_id = reg1.unit_system_id == reg2.unit_system_id
+                    part.count("forks sharing the source's unit_system_id" if same_id else "forks with an id of their own")
+                    pair = [(reg1, "source"), (reg2, "fork")]
+                    if order == "fork-first":
+                        pair.reverse()
+                    systems = {}
+                    for r_, tag in pair:
+                        systems[tag] = UnitSystem(r_.unit_system_id, "code_length", "code_mass", "code_time", registry=r_)
+                    watched, edited = (reg1, reg2) if through == "fork" else (reg2, reg1)
+                    wsys = systems["source" if through == "fork" else "fork"]
+                    before = observe(watched, wsys)
+                    det = {"fork": how, "systems_created": order, "edit": edit, "edited_through": through, "same_unit_system_id": same_id}
+                    for nm, o in before.items():
+                        part.ev()
+                        if o[0] == "raises":
+                            continue
+                        if o[-1] != "in own registry":
+                            core.classify(known, part, "C13:code-unit-system:result-bound-to-another-registry", dict(det, observation=nm, got=repr(o)[:200]))
+                    want = {"q.in_base(code)": [3.0], "a.in_base(code)": [2.0 * 4.0 / (3.0 * 2.0), 4.0 * 4.0 / (3.0 * 2.0)]}
+                    for nm, w in want.items():
+                        o = before[nm]
+                        if o[0] != "raises" and not all(abs(x - y) <= 1e-12 * abs(y) for x, y in zip(o[0], w)):
+                            core.classify(known, part, "C13:code-unit-system:wrong-values", dict(det, observation=nm, got=o[0], want=w))
+                    if edit == "modify":
+                        edited.modify("code_length", 3.0)
+                    elif edit == "remove+add":
+                        edited.remove("code_length")
+                        edited.add("code_length", 5.0, D.length)
+                    elif edit == "add-unrelated":
+                        edited.add("vfother", 9.0, D.length)
+                    else:
+                        edited.modify("code_mass", 7.0)
+                    after = observe(watched, wsys)
+                    part.nt(("code-systems", how, order, edit, through))
+                    if after != before:
+                        diff = {k_: (before[k_], after[k_]) for k_ in before if before[k_] != after[k_]}
+                        core.classify(known, part, "C13:code-unit-system:other-registry-changed-by-edit", dict(det, diff=repr(diff)[:400]))
+                    if len(part.samples) < 2:
+                        part.sample(dict(det, before=repr(before["q.in_base(code)"]), after=repr(after["q.in_base(code)"])))
+    part.count("code-unit-system scenarios", nscen)
+    return part
+
 def run(ctx):
     ctx.rule = (
         f"Hypothesis interleavings: 2-4 registries created by {len(set(CREATE))} routes (incl. several registries with identical contents) x 4-25 steps drawn "
         f"from {len(OPS)} operations (edits, unit construction, arithmetic, namespaces, unit systems, pickle/JSON/deepcopy round trips followed by edits of "
         "the restored registry, mixed-registry arithmetic, modify/remove attempts on the default registry); after every step a digest of every registry "
         f"({len(PROBES)} probe strings + arithmetic/conversion observations) and an import-time snapshot of the default registry, default table, exported "
-        "units/constants and a conversion panel are compared. non-trivial = distinct (creation routes, operation sequence) with >= 2 registries and >= 1 mutation"
+        "units/constants and a conversion panel are compared. non-trivial = distinct (creation routes, operation sequence) with >= 2 registries and >= 1 mutation; plus a deterministic grid "
+        "of code unit systems (UnitSystem(reg.unit_system_id, ..., registry=reg), in_base('code')) for a registry and its fork (5 fork routes x 2 creation orders x "
+        "4 edits x 2 directions): answers through one registry use its own definitions, stay in it, and do not move when the other is edited"
     )
     ctx.assumptions = [
         "constructing units, arithmetic, namespaces, unit systems and round trips are pure observations: nothing observable may change, not even in the registry they go through",
@@ -439,6 +549,7 @@ def run(ctx):
     ]
     n = ctx.pick(800, 32000)
     ctx.merge(core.pmap(MOD, "part_random", [{"n": n // 16, "seed": ctx.seed * 1000 + i} for i in range(16)]))
+    ctx.merge(core.pmap(MOD, "part_code_systems", [{}]))
 
 
 def replay(ctx, data):
